@@ -261,6 +261,11 @@ func (g *gen) genStatement(typ types.Type, this, that string) error {
 		}
 
 		fields := derive.Fields(g.TypesMap, ttyp, false)
+		if len(fields.Fields) == 0 {
+			// only blank fields, which cannot be referred to
+			p.P("return true")
+			return nil
+		}
 		for i, field := range fields.Fields {
 			fieldType := field.Type
 			thisField, thatField := field.Name(this, nil), field.Name(that, nil)
